@@ -290,17 +290,18 @@ func (r *Registry) GetHistogram(metricName string, labels prometheus.Labels, hel
 	if vh == nil {
 		metricsCount.WithLabelValues("histogram").Inc()
 		help = r.familyHelp(metricName, help)
-		buckets := r.Mapper.Defaults.HistogramOptions.Buckets
+		defaults := r.Mapper.GetDefaults()
+		buckets := defaults.HistogramOptions.Buckets
 		if mapping.HistogramOptions != nil && len(mapping.HistogramOptions.Buckets) > 0 {
 			buckets = mapping.HistogramOptions.Buckets
 		}
 
-		bucketFactor := r.Mapper.Defaults.HistogramOptions.NativeHistogramBucketFactor
+		bucketFactor := defaults.HistogramOptions.NativeHistogramBucketFactor
 		if mapping.HistogramOptions != nil && mapping.HistogramOptions.NativeHistogramBucketFactor > 0 {
 			bucketFactor = mapping.HistogramOptions.NativeHistogramBucketFactor
 		}
 
-		maxBuckets := r.Mapper.Defaults.HistogramOptions.NativeHistogramMaxBuckets
+		maxBuckets := defaults.HistogramOptions.NativeHistogramMaxBuckets
 		if mapping.HistogramOptions != nil && mapping.HistogramOptions.NativeHistogramMaxBuckets > 0 {
 			maxBuckets = mapping.HistogramOptions.NativeHistogramMaxBuckets
 		}
@@ -349,15 +350,16 @@ func (r *Registry) GetSummary(metricName string, labels prometheus.Labels, help 
 	if vh == nil {
 		metricsCount.WithLabelValues("summary").Inc()
 		help = r.familyHelp(metricName, help)
-		quantiles := r.Mapper.Defaults.SummaryOptions.Quantiles
+		defaults := r.Mapper.GetDefaults()
+		quantiles := defaults.SummaryOptions.Quantiles
 		if mapping != nil && mapping.SummaryOptions != nil && len(mapping.SummaryOptions.Quantiles) > 0 {
 			quantiles = mapping.SummaryOptions.Quantiles
 		}
 
 		summaryOptions := mapper.SummaryOptions{
-			MaxAge:     r.Mapper.Defaults.SummaryOptions.MaxAge,
-			AgeBuckets: r.Mapper.Defaults.SummaryOptions.AgeBuckets,
-			BufCap:     r.Mapper.Defaults.SummaryOptions.BufCap,
+			MaxAge:     defaults.SummaryOptions.MaxAge,
+			AgeBuckets: defaults.SummaryOptions.AgeBuckets,
+			BufCap:     defaults.SummaryOptions.BufCap,
 		}
 
 		if mapping != nil && mapping.SummaryOptions != nil {
